@@ -255,6 +255,8 @@ pub(crate) enum ExprErrorKind {
     UnexpectedValueForSignal(String, OutputValue),
     #[error("Division by zero")]
     DivisionByZero,
+    #[error("random({0}) has no value to choose from, the argument must be at least 2")]
+    EmptyRandomRange(i64),
     #[error("The function {0} is not implemented")]
     FunctionNotImplemented(&'static str),
 }
